@@ -12,7 +12,8 @@ Record case := mkCase {
   c_nerr : nat; c_nwarn : nat;
   c_render_ok : bool;          (* every error and warning rendered (Display, title) to a non-empty string *)
   c_build_ok : bool;
-  c_labels : list (N * N * bool * bool);  (* label span, is_char_boundary(start), is_char_boundary(end) on the rendered source *)
+  c_labels : list (N * N * N * bool * bool);  (* label span, length of the text it refers to (the submitted source, or the
+                                  included file named by the label's origin), is_char_boundary(start), is_char_boundary(end) in it *)
   c_len : N;                   (* length of the rendered source (the lossy conversion for invalid UTF-8) *)
   c_declared : list N;         (* names of the RULE_DECL nodes of the CST (interned per case) *)
   c_built : list N;            (* rules in the built Rules *)
@@ -25,7 +26,8 @@ Record case := mkCase {
                                       lines ending at \n only / at \n, \r\n and lone \r *)
   c_head_ok : bool;            (* line/column of the diagnostic = its first label's; the `-->` of the rendered text is some label's *)
   c_decl_spans : list (N * N); (* spans of the RULE_DECL nodes, parallel to c_declared *)
-  c_err_labels : list (N * N)  (* label spans of the errors *)
+  c_err_labels : list (N * N); (* label spans of the errors (those located in the submitted source) *)
+  c_twin_mismatch : bool       (* exchanging base64 and base64wide changes whether the source is accepted or its error codes *)
 }.
 
 Definition mem (x : N) (l : list N) : bool := existsb (N.eqb x) l.
@@ -65,13 +67,15 @@ Definition check_case (c : case) : bool :=
       Nat.leb (length ar) (length (c_declared c))
   end &&
   (* the report builder counts lines at \n only (lone \r is not a line end; \r\n counts once) *)
-  forallb fst (c_linecol c) && c_head_ok c.
+  forallb fst (c_linecol c) && c_head_ok c &&
+  (* base64 and base64wide put the same requirements on a pattern *)
+  negb (c_twin_mismatch c).
 
 (* S: the property on the implementation's answer *)
 Definition spec_case (c : case) : bool :=
   negb (c_crashed c) && negb (c_panicked c) && c_build_ok c && c_render_ok c &&
   Bool.eqb (c_add_ok c) (Nat.eqb (c_nerr c) 0) &&
-  forallb (fun l => let '(a, b, x, y) := l in (a <=? b) && (b <=? c_len c) && x && y) (c_labels c) &&
+  forallb (fun l => let '(a, b, n, x, y) := l in (a <=? b) && (b <=? n) && x && y) (c_labels c) &&
   (* the location of a regexp error lies inside the regexp it is about *)
   Nat.eqb (c_re_outside c) 0 &&
   (* a reported (line, column) designates the start of the span *)
